@@ -30,6 +30,7 @@ CAP_RECS = 256
 VARIANTS = [(False, False), (False, True), (True, False), (True, True)]
 COMPRESSIONS = ['NONE', 'snappy', 'gzip', 'zstd']
 MODES = ['path', 'bytesio', 'fileobj']
+FILE_CLAUSES = ('corrupt-rows', 'duplicate-rows', 'missing-rows', 'order')   # about the file
 
 
 def vname(v):
@@ -525,7 +526,7 @@ def main(tier, replay):
         clause = v[2]
         if clause.startswith('model-'):
             raise C.MachineryError('trace spec/harness problem: %s on %r' % (v, tr))
-        if tr['origin'] == 'tlc':
+        if tr['origin'] == 'tlc' and clause in FILE_CLAUSES:
             observed_fail.add((tr['N'], tr['b']))
         V.violation(witness_of(tr, v), clause, detail='judged after step %s; scope=%s' % (v[1], v[3]))
 
@@ -551,6 +552,7 @@ def main(tier, replay):
     empty = sorted({tuple(t['recs']) for t in small + big if t['N'] == 0})
     uncovered = sorted({a for r in mc_runs.values() for a, (d, t) in r.coverage.items() if t == 0})
     pick = [t for t in small if t['N'] == 5 and t['b'] == 2] or small
+    judged = tstats.pop('distinct_records')
     coverage = {
         'states': sum(r.distinct for r in mc_runs.values()) + tstats['states'],
         'transitions': sum(r.generated for r in mc_runs.values()) + tstats['transitions'],
@@ -570,7 +572,10 @@ def main(tier, replay):
         'rule': 'an execution is non-trivial when N >= b (at least one full batch, so state is '
                 'carried from one batch to the next / to the terminator); distinct by (N, b, m, '
                 'compression, file mode, row_group_size, schema)',
-        'trace_validation': tstats,
+        'trace_validation': dict(tstats, records_judged_by_tlc=judged,
+                                 note='executions that differ only in fields TLC does not read '
+                                      '(codec, file mode, schema) share one record and verdict; '
+                                      'the replayed behaviours are judged under all 4 variants'),
         'impl_model_in_sync': in_sync,
         'impl_follows_variant': vname(variant) if followed else None,
         'impl_model_in_sync_by_variant': {vname(v): {'in_sync': c, 'of': len(small)}
